@@ -85,6 +85,8 @@ class MEngine:
             self.ctx.record(name, 'M', 'inconclusive', key=key, detail='emit: %s' % e)
             self.ctx.inconclusive.append('%s: cannot emit (%s)' % (name, e))
             return
+        if on_sat is None:
+            on_sat = default_replay(self.ctx, key or name)
         fut = self.pool.submit(text, solver, timeout, self.ctx.seed)
         self.pending.append({'name': name, 'fut': fut, 'expect': expect, 'key': key or name, 'sem': sem, 'note': note, 'text': text, 'on_sat': on_sat,
                              'timeout': timeout, 'solver': solver})
@@ -95,6 +97,8 @@ class MEngine:
 
     def violated_structurally(self, name, key, text, replay=None):
         """A violation established without a solver search (e.g. the returned value has the wrong shape on a feasible path)."""
+        if replay is None:
+            replay = default_replay(self.ctx, key)
         self._candidate({'name': name, 'key': key, 'sem': 'structural', 'note': text, 'text': '', 'on_sat': replay}, '', 0.0, text)
 
     def _candidate(self, p, out, dt, what):
@@ -195,4 +199,25 @@ def pc_kind(pc, var='kind'):
     for c in pc:
         if c[0] == 'ieq' and c[1] == T.var(var, 'i') and c[2][0] == 'iconst':
             return c[2][1]
+    return None
+
+
+def default_replay(ctx, key):
+    """Native confirmation procedure for a refuted obligation, chosen by the obligation's role key."""
+    from vlib import native
+    k = key
+    if re.match(r'C0[24]:paired|C04:paired', k):
+        return None
+    if re.match(r'(C01|C06:arith|C10:arithmetic|C10:quantile|C16:arith)', k):
+        return lambda model, p: native.replay_arith(ctx, model, p['name'])
+    if re.match(r'(C04:unpaired|C04:swap|C10:unpaired|C06:unpaired|C16:unpaired)', k):
+        return lambda model, p: native.replay_unpaired(ctx, model, p['name'])
+    if re.match(r'(C02|C17|C10|C06):(wilson)', k):
+        return lambda model, p: native.replay_proportion(ctx, model, p['name'], 'wilson')
+    if re.match(r'(C02|C17|C10|C06):(z_normal|wald)', k):
+        return lambda model, p: native.replay_proportion(ctx, model, p['name'], 'wald')
+    if re.match(r'C05:geometric|C10:geometric', k):
+        return lambda model, p: native.replay_wrapper(ctx, 'geometric', 0)
+    if re.match(r'C05:harmonic|C10:harmonic', k):
+        return lambda model, p: native.replay_wrapper(ctx, 'harmonic', 0)
     return None
